@@ -123,7 +123,7 @@ def check_kernels(ctx, N):
                     else:
                         ctx.finding(f'C04:KERNEL|{fn}', 'AFF splitter equation', I.bodies[fn]['span'],
                                     f'{fn}: cannot prove 86_400e9*days + nanos == input on an Ok path (got {f}, nanos in [{lo},{hi}])')
-        ctx.rule('C04-K splitter equation', n, ok, floor=3, sample={'kernel': fn})
+        ctx.rule('C04-K splitter equation', n, ok, floor=1, sample={'kernel': fn})
 
 
 def check(ctx):
